@@ -74,6 +74,16 @@ def one(ctx, i):
         dtq = GEN.Q('TimeInterval', SI.from_si('TimeInterval', dt_si, tu), tu)
         Tq = GEN.Q('TimeInterval', SI.from_si('TimeInterval', dt_si * n, tu), tu)
         sp['schedule'] = [{'op': 'run', 'dt': dtq, 'T': Tq}]
+        if i % 8 == 5:
+            # the study is run in two parts: a quarter of the horizon with this step, the rest CONTINUED with half the step
+            # (written in another time unit); the first-order bound is the one of the coarser step
+            n1 = max(2, n // 4)
+            u2_ = rng.choice(GEN.time_units_for(dt_si / 2))
+            sp['schedule'] = [{'op': 'run', 'dt': dtq, 'T': GEN.Q('TimeInterval', SI.from_si('TimeInterval', dt_si * n1, tu), tu)},
+                              {'op': 'run', 'dt': GEN.Q('TimeInterval', SI.from_si('TimeInterval', dt_si / 2, u2_), u2_),
+                               'T': GEN.Q('TimeInterval', SI.from_si('TimeInterval', dt_si / 2 * 2 * (n - n1), u2_), u2_)}]
+            if j == 0:
+                ctx.count('studies_continued_with_a_finer_step')
         sp['rules'] = []
         if via_rule:
             sp['rules'] = [{'type': 'const', 'start': GEN.Q('Time', 0.0, 'sec'), 'dur': GEN.Q('TimeInterval', 10 * dt_si * n, 'sec'), 'value': D}]
@@ -170,10 +180,81 @@ def one(ctx, i):
                     'max_speed_error_per_step_size': errs_w, 'max_position_error_per_step_size': errs_th})
 
 
+def coast(ctx, i):
+    """the degenerate member of the family: the motor is switched OFF (duty cycle exactly 0, imposed by a ConstantPWM rule or
+    set on the motor; with current data the characteristic then gives zero torque), so the chain decelerates under the constant
+    load alone: w(t) = w_init + a t, theta(t) = theta0 + w_init t + a t^2/2 with a = -T_load / J_eq. Explicit Euler reproduces
+    the speed exactly and the position with an O(dt) error, which halves with the step."""
+    rng = ctx.rng('coast', i)
+    case = {'kind': 'coast', 'index': i}
+    prof = dict(p_continue=0.0, p_reset=0.0, p_selflock=0.0, p_speed_load=0.0, p_pos_load=0.0, p_time_load=0.0, p_pwm_preset=0.0, p_ic_zero=0.0, p_struct=0.2,
+                p_overload=0.0, p_big_overload=0.0, max_stages=3, p_currents=1.0, p_worm=0.1)
+    spec = GEN.gen_scenario(rng, prof, force_selflock=False)
+    spec['load'].update(B=0.0, C=0.0, S=0.0, W=0.0, step_t=None, step_A=0.0)
+    nums = GEN.chain_numbers(spec)
+    q = GEN.qsi
+    TL = spec['load']['A']
+    a = -TL / nums['J_eq']
+    w_init, th0 = q(spec['ic']['speed']), q(spec['ic']['pos'])
+    k = spec['_ref']['k']                       # rate constant of the DRIVEN system: only used to size steps and horizon
+    via_rule = i % 2 == 0
+    D = rng.choice([0, 0.0])
+    n0 = 16
+    tu = spec['schedule'][0]['dt']['u']
+    errs = []
+    scale = abs(w_init) + abs(a) * 4 / k
+    for j in range(3):
+        sp = copy.deepcopy(spec)
+        dt_si = 0.2 / k / 2 ** j
+        n = n0 * 2 ** j
+        dtq = GEN.Q('TimeInterval', SI.from_si('TimeInterval', dt_si, tu), tu)
+        sp['schedule'] = [{'op': 'run', 'dt': dtq, 'T': GEN.Q('TimeInterval', SI.from_si('TimeInterval', dt_si * n, tu), tu)}]
+        sp['rules'] = [{'type': 'const', 'start': GEN.Q('Time', 0.0, 'sec'), 'dur': GEN.Q('TimeInterval', 10 * dt_si * n, 'sec'), 'value': D}] if via_rule else []
+        sp['ic']['pwm'] = D
+        try:
+            b = B.build(sp)
+            runs = B.run_schedule(b)
+        except Exception as ex:
+            ctx.violation('harness:valid-scenario-rejected', {'exception': type(ex).__name__ + ': ' + str(ex)[:200]}, case)
+            return
+        if runs[0]['exc']:
+            ctx.violation('C04:run-raised', {'exception': runs[0]['exc']}, case)
+            return
+        tr = B.extract(b)
+        L = tr.els[-1]['vars']
+        dts = q(dtq)
+        eth = 0.0
+        for kk in range(tr.n):
+            t = tr.time[kk]
+            dw = abs(L['angular speed'][kk] - (w_init + a * t))
+            dth = abs(L['angular position'][kk] - (th0 + w_init * t + a * t * t / 2))
+            eth = max(eth, dth)
+            ctx.count('instants')
+            if dw > 1e-9 * scale or dth > 0.6 * abs(a) * t * dts + 1e-9 * (abs(th0) + scale * t):
+                ctx.violation('C04:motor-off-deceleration', {'instant': kk, 'time': t, 'speed': L['angular speed'][kk], 'closed_form_speed': w_init + a * t,
+                                                            'position': L['angular position'][kk], 'closed_form_position': th0 + w_init * t + a * t * t / 2,
+                                                            'duty_cycle': D, 'imposed_by_rule': via_rule, 'deceleration': a, 'topology': SC.topo_signature(spec)}, case)
+                return
+        errs.append(eth)
+        ctx.count('runs')
+    ctx.count('motor_off_scenarios')
+    ctx.count('evaluations')
+    for e1, e2 in zip(errs, errs[1:]):
+        if e2 > 1e-7 * (abs(th0) + scale / k):
+            ctx.count('order_ratios_checked')
+            if not (1.7 <= e1 / e2 <= 2.4):
+                ctx.violation('C04:error-does-not-halve', {'quantity': 'position (motor off)', 'errors_per_step_size': errs, 'ratio': e1 / e2}, case)
+                return
+
+
 def shard(ctx):
     for i in ctx.my_cases(n_cases(ctx.tier)):
         one(ctx, i)
+    for i in ctx.my_cases(16 if ctx.tier == 'quick' else 600):
+        coast(ctx, i)
 
 
 def replay(ctx, case):
+    if case.get('kind') == 'coast':
+        return coast(ctx, case['index'])
     one(ctx, case['index'])
